@@ -607,3 +607,51 @@ mutant("c06-any-applies-term", "C06", (R, """                if isinstance(node.
                         result = hedge.hedge(result)
                     return result"""), "P9/Antecedent.activation_degree/any")
 mutant("c06-operands-reversed-queue", "C06", (T, '        postfix = " ".join(queue)', '        postfix = " ".join(reversed(queue))'), "X7/")
+
+# ------------------------------------------------------------------------------------------ C18
+GRID = """            k = max(1, round(pow(values, (1.0 / inputs))))
+            while k > 1 and k**inputs > values:
+                k -= 1
+            while (k + 1) ** inputs <= values:
+                k += 1
+            resolution = k - 1
+"""
+mutant("c18-regress-truncated-root", "C18", (X, GRID, "            resolution = -1 + max(1, int(pow(values, (1.0 / inputs))))\n"), "N1/FldExporter.write_from_scope/grid-size")
+mutant("c18-floor-of-power", "C18", (X, GRID, "            import math\n\n            resolution = math.floor(values ** (1 / inputs)) - 1\n"), "N1/FldExporter.write_from_scope/grid-size")
+mutant("c18-round-without-witness", "C18", (X, GRID, "            resolution = max(1, round(values ** (1.0 / inputs))) - 1\n"), "N1/FldExporter.write_from_scope/grid-size")
+mutant("c18-increment-le", "C18", (O, "        if x[position] < maximum[position]:", "        if x[position] <= maximum[position]:"), "G8/Operation.increment/digit")
+mutant("c18-increment-first-digit-fastest", "C18", (O, "            position = len(x) - 1\n", "            position = 0\n"), "G8/Operation.increment")
+mutant("c18-write-without-restart", "C18", (X, "        engine.restart()\n\n        # TODO: Vectorization here", "        # TODO: Vectorization here"), "W4/FldExporter.write/order")
+mutant("c18-header-wrong-switch", "C18", (X, """        if self.output_values:
+            result += [ov.name for ov in engine.output_variables]""", """        if self.input_values:
+            result += [ov.name for ov in engine.output_variables]"""), "S4/FldExporter.header")
+mutant("c18-reader-skip-le", "C18", (X, "            if i < skip_lines:\n                continue", "            if i <= skip_lines:\n                continue"), "G9/")
+mutant("c18-reader-keeps-comments", "C18", (X, """            if not line or line[0] == "#":
+                continue""", """            if not line:
+                continue"""), "G9/")
+mutant("c18-columns-all-first", "C18", (X, "            variable.value = input_values[:, index]", "            variable.value = input_values[:, 0]"), "W4/FldExporter.write/columns")
+mutant("c18-outputs-before-process", "C18", (X, """        engine.process()
+
+        values: list[Any] = []
+        if self.input_values:
+            values.append(engine.input_values)
+        if self.output_values:
+            values.append(engine.output_values)""", """        values: list[Any] = []
+        if self.input_values:
+            values.append(engine.input_values)
+        if self.output_values:
+            values.append(engine.output_values)
+        engine.process()
+"""), "W4/FldExporter.write/read-after-process")
+mutant("c18-each-variable-off-by-one", "C18", (X, "            resolution = values - 1\n", "            resolution = values\n"), "N2/FldExporter.write_from_scope/each-variable")
+mutant("c18-decimals-hardcoded", "C18", (X, 'fmt=f"%0.{settings.decimals}f",', 'fmt="%0.3f",'), "W4/FldExporter.write/format")
+mutant("c18-carry-wrong-list", "C18", (O, "incremented = Op.increment(x, minimum, maximum, position)", "incremented = Op.increment(x, minimum, minimum, position)"), "G8/Operation.increment/carry")
+equivalent("c18-eq-integer-bisection-root", "C18", (X, GRID, """            lo, hi = 1, max(1, values)
+            while lo < hi:
+                mid = (lo + hi + 1) // 2
+                if mid**inputs <= values:
+                    lo = mid
+                else:
+                    hi = mid - 1
+            resolution = lo - 1
+"""))
